@@ -479,11 +479,18 @@ func NewBM(userIDs []*UserID_t) (bms *BM_t) {
 	bmsBytes := bms[:]
 	p_bmsBytes := bmsBytes
 	for idx, each := range userIDs {
+		userIDBytes := types.CstrToBytes(each[:])
+		sepLen := 0
+		if idx > 0 {
+			sepLen = 1
+		}
+		if sepLen+len(userIDBytes) > len(p_bmsBytes) { // no room left: drop the rest instead of a partial id
+			break
+		}
 		if idx > 0 {
 			p_bmsBytes[0] = '/'
 			p_bmsBytes = p_bmsBytes[1:]
 		}
-		userIDBytes := types.CstrToBytes(each[:])
 		copy(p_bmsBytes[:], userIDBytes)
 		p_bmsBytes = p_bmsBytes[len(userIDBytes):]
 	}
